@@ -6,6 +6,7 @@ import Tw.Proofs.ConnSafety6
 import Tw.Proofs.ConnSafety7
 import Tw.Proofs.Conn6
 import Tw.Proofs.Conn7
+import Tw.Proofs.RsConn
 
 /-!
 # C01 — vital chunks are delivered exactly once, in order, uncorrupted
@@ -168,5 +169,32 @@ example : (run (World.init proto7) demo7).map summary =
 example : admissible (World.initAccept6 0 777 1) demoAccept6 = true := by decide +kernel
 example : (NetSim.run (World.initAccept6 0 777 1) demoAccept6).map summary =
     some ([[[1], [2], [3]], [[1], [2], [3]], [[9], [9]], [[7]]], 1) := by decide +kernel
+
+/-! ## Function-level tie: `Sequence` of `net/src/connection.rs`, translated by `tools/rs2lean`
+
+`Tw.Gen.RsConn.*` is regenerated from the Rust source on every run; these theorems state that the
+regenerated definitions compute the hand-written `seqNext` / `seqCompare` / `seqUpdate` the theorems
+above are about (representation map: `Sequence { seq }` ↦ `seq`, `SequenceOrdering` ↦ `SeqOrd` via
+`Tw.RsConn.ordMap`; `Except.error` = panic). -/
+
+theorem tie_rs_seq_from_u16 (s : Nat) :
+    (s < seqMod → Tw.Gen.RsConn.Sequence.from_u16 s = .ok ⟨s⟩) ∧
+    (seqMod ≤ s → ∃ p, Tw.Gen.RsConn.Sequence.from_u16 s = .error p) :=
+  ⟨Tw.RsConn.seq_from_u16_eq s, Tw.RsConn.seq_from_u16_panics s⟩
+
+theorem tie_rs_seq_next (s : Tw.Gen.RsConn.Sequence) (h : s.seq < 65535) :
+    Tw.Gen.RsConn.Sequence.next s = .ok (⟨seqNext s.seq⟩, ⟨seqNext s.seq⟩) :=
+  Tw.RsConn.seq_next_eq s h
+
+theorem tie_rs_seq_compare (a b : Tw.Gen.RsConn.Sequence) :
+    Tw.Gen.RsConn.Sequence.compare a b = .ok (Tw.RsConn.ordMap (seqCompare a.seq b.seq)) :=
+  Tw.RsConn.seq_compare_eq a b
+
+theorem tie_rs_seq_update (a b : Tw.Gen.RsConn.Sequence) (h : a.seq < 65535) :
+    Tw.Gen.RsConn.Sequence.update a b =
+      .ok (Tw.RsConn.ordMap (seqUpdate a.seq b.seq).2, ⟨(seqUpdate a.seq b.seq).1⟩) :=
+  Tw.RsConn.seq_update_eq a b h
+
+example : (⟨1023⟩ : Tw.Gen.RsConn.Sequence).seq < 65535 := by decide
 
 end Tw.Props.C01
